@@ -8,6 +8,8 @@ mod cmds;
 mod e1;
 mod e2;
 mod e3;
+mod e5;
+mod e_writer;
 mod refs;
 mod report;
 mod session;
@@ -37,6 +39,7 @@ fn main() {
     match prop.as_str() {
         "C01" => checks_e1::c01(&mut rep, &tier, seed),
         "C02" => checks_e2::c02(&mut rep, &tier, seed),
+        "C03" => checks_e1::c03(&mut rep, &tier, seed),
         "C04" => checks_e2::c04(&mut rep, &tier, seed),
         "C05" => checks_e1::c05(&mut rep, &tier, seed),
         "C06" => checks_e1::c06(&mut rep, &tier, seed, "C06"),
@@ -44,6 +47,8 @@ fn main() {
         "C08" => checks_e3::c08(&mut rep, &tier),
         "C17" => checks_e3::c17(&mut rep, &tier),
         "C10" => checks_e1::c10(&mut rep, &tier, seed),
+        "C13" => checks_e1::c13(&mut rep, &tier, seed),
+        "C14" => checks_e1::c14(&mut rep, &tier, seed),
         "C15" => checks_e1::c06(&mut rep, &tier, seed, "C15"),
         _ => {
             eprintln!("unknown property {}", prop);
